@@ -41,7 +41,13 @@ type impTarget struct {
 	grp    string // name of a point type treated as an ABSTRACT group element type G with operations add / dbl / neg / zero (imp_grp.go)
 	inf    string // name of the package-level variable holding the point at infinity (read as `zero`)
 	digest bool   // the MiMC digest state machine (imp_digest.go): struct over the abstract element type, field primitives / codecs as parameters
+	guards []impGuard // accepted alternative layout: exported function = panic guard around an unexported body
 }
+
+// impGuard: when the file declares `inner`, the function `name` must have EXACTLY the text `text` (a wrapper that calls
+// `inner` with its own arguments and turns a panic into the result false: panics are not modelled, so the wrapper is the
+// identity on every run the translation speaks about) and `inner` is translated under the name `name`. Anything else: exit.
+type impGuard struct{ name, inner, text string }
 
 var impTargets = []impTarget{
 	{dir: "fiat-shamir", file: "transcript.go", ns: "FiatShamir", out: "Imp/Transcript.lean",
@@ -50,7 +56,8 @@ var impTargets = []impTarget{
 	{dir: "ecc/bn254/fr", file: "element.go", ns: "Exp_bn254_fr", out: "Imp/Exp_bn254_fr.lean", funcs: []string{"Exp"}, elem: "Element"},
 	{dir: "field/hash", file: "hashutils.go", ns: "HashUtils", out: "Imp/ExpandMsgXmd.lean", funcs: []string{"min", "ExpandMsgXmd"}},
 	{dir: "accumulator/merkletree", file: "verify.go", ns: "MerkleVerify", out: "Imp/MerkleVerify.lean", funcs: []string{"VerifyProof"},
-		abstract: []string{"leafSum", "nodeSum", "sum"}},
+		abstract: []string{"leafSum", "nodeSum", "sum"},
+		guards:   []impGuard{{"VerifyProof", "verifyProof", "func VerifyProof(h hash.Hash, merkleRoot []byte, proofSet [][]byte, proofIndex uint64, numLeaves uint64) (ok bool) { defer func() { if r := recover(); r != nil { ok = false } }() return verifyProof(h, merkleRoot, proofSet, proofIndex, numLeaves) }"}}},
 	{dir: "ecc/bn254/fr/mimc", file: "mimc.go", ns: "Mimc_bn254", out: "Imp/Mimc_bn254.lean", funcs: digestFuncs, digest: true},
 }
 
@@ -424,6 +431,27 @@ func loadImp(tg impTarget) *impPkg {
 				p.funcs[v.Name.Name] = v
 			}
 		}
+	}
+	for _, gd := range tg.guards {
+		in := p.funcs[gd.inner]
+		if in == nil {
+			continue
+		}
+		out := p.funcs[gd.name]
+		if out == nil {
+			die("imp: %s: %s without %s", tg.file, gd.inner, gd.name)
+		}
+		var buf bytes.Buffer
+		doc := out.Doc
+		out.Doc = nil
+		printer.Fprint(&buf, p.fset, out)
+		out.Doc = doc
+		if got := strings.Join(strings.Fields(buf.String()), " "); got != gd.text {
+			die("imp: %s: %s is not the accepted panic guard around %s:\n  %s", tg.file, gd.name, gd.inner, got)
+		}
+		in.Name = ast.NewIdent(gd.name)
+		p.funcs[gd.name] = in
+		delete(p.funcs, gd.inner)
 	}
 	// abstract package-local functions: found in any non-test file of the package
 	if len(tg.abstract) > 0 {
